@@ -71,15 +71,25 @@ def run(out, tier, seed):
         open(cases, "w").writelines(keep)
         sampled = " [3-item lists: a seeded 34% sample]"
     rl = random_lists(rnd, 1500 if tier == "quick" else 20000)
+    # copies: the list is cloned into a second data object (traits::helpers::clone_data) and the COPY is questioned - every list that
+    # holds a list, and a seeded share of the others
+    copies = []
+    with open(cases) as f:
+        for line in f:
+            c = json.loads(line)
+            if any(i.get("t") == "list" or (i.get("t") == "pair" and i["r"].get("t") == "list") for i in c.get("items", [])) or rnd.random() < 0.1:
+                copies.append(dict(c, copy=True))
+    for c in rl[::4]:
+        copies.append(dict(c, copy=True))
     with open(cases, "a") as f:
-        for c in rl:
+        for c in rl + copies:
             f.write(json.dumps(c, separators=(",", ":")) + "\n")
-    total = n + len(rl)
+    total = n + len(rl) + len(copies)
     obs = os.path.join(wd, "obs.ndjson")
     st = vlib.run_workers("list", cases, total, obs, timeout=30)
     decide(out, obs, total, st, "model: %d lists of cells (all address assignments) checked against the abstract list for both look-up structures; replay: every list up to %d items over 17 item kinds "
            "(7 plain, 10 keyed by adversarial symbols)%s with distinct keys x 3 paddings x {no, 1-item, 2-item} second operand of a concatenation (%d cases, exhaustive) + %d seeded random lists of 5..40 items "
-           "(keys colliding modulo the length / extreme u64 / sorted / reverse-sorted); x 2 stores" % (model_states, 2 if tier == "quick" else 3, sampled, n, len(rl)))
+           "(keys colliding modulo the length / extreme u64 / sorted / reverse-sorted) + copies of every list that holds a list and of a share of the others (clone_data into a second data object); x 2 stores" % (model_states, 2 if tier == "quick" else 3, sampled, n, len(rl)))
     out.cov["exhaustive"] = True
 
 
@@ -105,7 +115,7 @@ def decide(out, obs, total, st, rule):
         if (keyed and len(keyed) < len(items)) or o.get("second"):
             nt += 1
         if ln in failing:
-            origin[ln] = {k: o[k] for k in ("items", "second", "concat", "pad", "syms") if k in o}
+            origin[ln] = {k: o[k] for k in ("items", "second", "concat", "pad", "syms", "copy") if k in o}
         if len(samples) < 4 and o.get("case", 0) % 5003 == 11:
             samples.append({"items": items, "second": o.get("second"), "len": [r.get("len") for r in o["runs"]]})
     out.cov["distinct_nontrivial"] = nt
@@ -113,7 +123,7 @@ def decide(out, obs, total, st, rule):
     for fl in fails:
         for f in fl["fails"]:
             kf = f.get("kf", "NEW")
-            why = "[%s %s] %s" % (f["store"], f["level"], f["why"])
+            why = "[%s %s%s] %s" % (f["store"], f["level"], " of a copy made by clone_data" if (origin.get(fl["line"]) or {}).get("copy") else "", f["why"])
             out.fail(kf, why, {"why": why, "list_case": origin.get(fl["line"])}, family=why)
 
 
